@@ -1,0 +1,21 @@
+//go:build verif
+
+// Contracts for the govc verifier (see /verif/DESIGN.md). Comment-only file.
+package bus
+
+//@ # ---------------------------------------------------------------- the conservation ledger seen through the bus (C01)
+//@ # abstract view of the checker: per coin, the net change of holdings and of volume reported since the last reset
+//@ ghost ledgerDelta(c Checker, coin types.CoinID) int
+//@ ghost ledgerVolume(c Checker, coin types.CoinID) int
+
+//@ # interface contract of the ledger: every implementation must satisfy it (checker.Checker is verified against the
+//@ # same postconditions over its maps)
+//@ func iface Checker.AddCoin
+//@   requires arg1 != nil
+//@   ensures ledgerDelta(recv, arg0) == old(ledgerDelta(recv, arg0)) + old(arg1.val)
+//@   modifies ledgerDelta(recv, arg0)
+
+//@ func iface Checker.AddCoinVolume
+//@   requires arg1 != nil
+//@   ensures ledgerVolume(recv, arg0) == old(ledgerVolume(recv, arg0)) + old(arg1.val)
+//@   modifies ledgerVolume(recv, arg0)
